@@ -223,6 +223,61 @@ func (r *Relevance) pushImplementations(m *types.Func, push func(*ssa.Function))
 	}
 }
 
+// AddConstructorsOfOperands: a property about operations on key objects quantifies over every key the API
+// can produce, so the functions that construct the operand types of the roots added so far (module functions with a
+// result of that pointer type, declared in the type's package) are relevant too.
+func (r *Relevance) AddConstructorsOfOperands() {
+	want := map[*types.TypeName]bool{}
+	for f := range r.reach {
+		if f.Signature == nil || f.Parent() != nil {
+			continue
+		}
+		var ps []*types.Var
+		if rv := f.Signature.Recv(); rv != nil {
+			ps = append(ps, rv)
+		}
+		for i := 0; i < f.Signature.Params().Len(); i++ {
+			ps = append(ps, f.Signature.Params().At(i))
+		}
+		for _, p := range ps {
+			if pt, ok := p.Type().Underlying().(*types.Pointer); ok {
+				if nt, ok := pt.Elem().(*types.Named); ok && nt.Obj().Pkg() != nil && load.IsModulePkg(nt.Obj().Pkg().Path()) {
+					// key objects (protocol packages): their cross-field invariants (scalar / point / cached encoding) are
+					// established by their constructors only; points and scalars are decided on symbolic values directly
+					if _, isStruct := nt.Underlying().(*types.Struct); isStruct && strings.Contains(nt.Obj().Pkg().Path(), "/secec") {
+						want[nt.Obj()] = true
+					}
+				}
+			}
+		}
+	}
+	var ctors []*ssa.Function
+	for _, pkg := range r.prog.Pkgs {
+		sp := r.prog.SSAPkgs[pkg.PkgPath]
+		if sp == nil {
+			continue
+		}
+		for _, m := range sp.Members {
+			f, ok := m.(*ssa.Function)
+			if !ok || f.Signature == nil {
+				continue
+			}
+			res := f.Signature.Results()
+			for i := 0; i < res.Len(); i++ {
+				if pt, ok := res.At(i).Type().Underlying().(*types.Pointer); ok {
+					if nt, ok := pt.Elem().(*types.Named); ok && want[nt.Obj()] && nt.Obj().Pkg() == pkg.Types {
+						ctors = append(ctors, f)
+					}
+				}
+			}
+		}
+	}
+	sort.Slice(ctors, func(i, j int) bool { return ctors[i].String() < ctors[j].String() })
+	for _, f := range ctors {
+		r.AddRoot(f)
+	}
+}
+
 // Relevant reports whether an obligation of a lower layer concerns this property.  Obligations that are not
 // about one function (constants, type-level rules, tables, controls of the lower layer) are always relevant.
 func (r *Relevance) Relevant(o check.Obligation) bool {
